@@ -15,6 +15,15 @@ CLAIMED = {
             "Trusted: Lean kernel; IEEE-754 subtraction/fabs/compare identical in Lean Float and numpy; searchsorted(left) = "
             "count of smaller elements; monotone rounding of |v-g| (the theorem is stated for any unimodal distance).",
             "DESIGN.md §4 C17"),
+    "C15": ("Lean 4 proof (first-failing-check characterisation; grid = {lower+i*precision < upper+tol}; hits bound when tol <= precision; size = product) + exhaustive lattice / bit-exact differential run of SearchSpace",
+            "Proved in Lean: the validation result is the first failing condition in the documented order with the documented payload "
+            "(iff per constructor), accepted iff well-formed; over exact arithmetic the grid is exactly lower + i*precision for the i "
+            "below upper+tol, strictly increasing, ends on the bound when the range is a multiple of the precision and tol <= precision; "
+            "size is the product of lengths; a Lean witness shows the bound clause fails for precision < tol (known finding). "
+            "Model tied to search_space.py by exhaustive lattice comparison of error class+payload and bit-exact grids.",
+            "Trusted: Lean kernel; numpy arange contract (length ceil((stop-start)/step), element i = start+i*delta), checked bit-for-bit each run; "
+            "binary64 rounding of grid elements is outside the exact-arithmetic theorems.",
+            "DESIGN.md §4 C15"),
 }
 NOT_YET = {}
 
